@@ -8,5 +8,5 @@ import (
 
 func TestReplay(t *testing.T) {
 	Setup()
-	vrt.ReplayMain(map[string]func(){"Harness_routes": Harness_routes})
+	vrt.ReplayMain(map[string]func(){"Harness_routes": Harness_routes, "Harness_routes_plain": Harness_routes_plain})
 }
